@@ -49,7 +49,8 @@ Program(c, p) ==
       [] p = 6 -> <<Get(c, 1), Get(c, 2)>>
       [] p = 7 -> <<PutBig(c, 1)>>                      \* declares more than the limit
       [] p = 8 -> <<Get(c, 1) \o L_S_BAD>>              \* valid request discarded with the malformed one
-WellFormed(p) == p \in {1, 2, 3, 4, 6}
+      [] p = 9 -> <<Get(c, 1) \o Get(c, 2) \o Get(c, 3)>>   \* three deep: answers may be supplied around a write
+WellFormed(p) == p \in {1, 2, 3, 4, 6, 9}
 
 \* the application's response to a token: a real serialized response tagged with owner and request
 RespBytes(t) == SerializeResp(SetBody(NewResp("1.1", 200), Digit(t.owner) \o t.tag))
